@@ -16,7 +16,7 @@ ID = 'C13'
 
 MANIFEST = {
     'engine': 'symx',
-    'text': 'Bounded symbolic exploration of the real compute_coverage / compute_cardinalities / compute_value_counts / summarize_rare_counts code on real pandas frames: the value of every cell (index into a pool containing the empty string and a missing symbol), the way the rows are cut into consecutive mini-batches, the rare-value threshold and the missing-symbol set are symbolic and decided by the solver; for every feasible combination the per-batch coverage, sketch size, value-repetition histogram and rare-value table are compared with an exact recomputation over the consumed rows, and the one-batch run with every split. The path set is certified complete against the declared domain.',
+    'text': 'Bounded symbolic exploration of the real compute_coverage / compute_cardinalities / compute_value_counts / summarize_rare_counts code on real pandas frames: the value of every cell (index into a pool containing the empty string and a missing symbol), the way the rows are cut into consecutive mini-batches, the rare-value threshold and the missing-symbol set are symbolic and decided by the solver; for every feasible combination the per-batch coverage, sketch size, value-repetition histogram and rare-value table are compared with an exact recomputation over the consumed rows, and the one-batch run with every split. The path set is certified complete against the declared domain. Frames are built with the very expression compute_batch_ranking uses (read from the working tree); the value pool includes a whitespace-only level and, in a small job family, absent cells (None); the missing-symbol list may repeat a symbol; with a saturating histogram bound the histogram must equal the row-by-row bounded recount.',
     'note': 'The functions only ever see concrete frames (inputs are concretised by solver decisions, so this is bounded-exhaustive exploration through the real code, with the solver certifying completeness); <=4 rows x 1 column, <=3 rows x 2 columns (quick), <=5/<=4 rows thorough; HyperLogLog only inside its exact range (beyond: C14); 32-bit hash collisions outside; an empty rare-value table (summarize_rare_counts on no rows) is outside the statement.',
     'technique': 'solver-driven bounded exploration of the real Python code (z3 decides every input choice; coverage certificate by decision-tree audit), exact recomputation oracle',
 }
